@@ -125,6 +125,16 @@ def make_ds(rng, xr, fmt):
         od = [str(x_) for x_ in rng.permutation(["time", "site", "freq", "dir"])]
         ds = ds.transpose(*od)
         ds["efth"] = (tuple(od), np.ascontiguousarray(ds["efth"].values))
+    if nt > 1 and fmt in ("swan", "swan_grid", "json", "json_grid", "netcdf", "netcdf_grid") and rng.random() < 0.12:
+        # a valid but not chronological time axis (segments concatenated newest first, a late record appended): every spectrum
+        # must come back under the time stamp it was written with
+        perm = rng.permutation(nt)
+        if np.array_equal(perm, np.arange(nt)):
+            perm = perm[::-1]
+        ds = ds.isel(time=perm)
+        ds["efth"] = (ds["efth"].dims, np.ascontiguousarray(ds["efth"].values))
+        kinds = kinds[perm]
+        order += "+times-not-chronological"
     if not grid:
         dec = 7 if fmt in ("netcdf", "json") else 5           # formats that store positions as doubles keep every digit
         lon = np.round(rng.uniform(0, 359, shape[1]) if rng.random() < 0.6 else rng.uniform(-179, 179, shape[1]), dec)
@@ -162,8 +172,11 @@ def one(ctx, rng, xr, ws, fmt, d):
             gz = rng.random() < 0.3
             path = os.path.join(d, "out.spec" + (".gz" if gz else ""))
             opts = {"ntime": None if rng.random() < 0.5 else int(rng.integers(1, nt + 1))}
-            again = lambda: (ds.spec.to_swan(path, **opts), ws.read_swan(path))[1]
+            ro = {"dirorder": False} if rng.random() < 0.25 else {}         # documented reader option: directions as in the file
+            again = lambda: (ds.spec.to_swan(path, **opts), ws.read_swan(path, **ro))[1]
             back = again()
+            if ro:
+                rec.note("swan_read_with_dirorder_false")
             key0 += "|gz=%s|ntime=%s" % (gz, "all" if opts["ntime"] is None else ("lt" if opts["ntime"] < nt else "eq"))
         elif base == "octopus":
             gz = rng.random() < 0.3
@@ -285,6 +298,16 @@ def compare(rec, base, key, ds, back, kinds, opts):
     if base == "octopus":
         tw = tw.astype("datetime64[m]").astype("datetime64[us]")
     # whole-second stamps must come back to well within a second (float day encodings round-trip to ~us)
+    tmap = None
+    if tb is not None and tb.shape == tw.shape and len(tw) > 1 and np.any(np.diff(tw.astype("int64")) < 0):
+        # not chronological as written: the reader may return the records in file order or sorted; each record is identified
+        # by its (unique) stamp
+        tmap = [int(np.argmin(np.abs((tb - t_).astype("int64")))) for t_ in tw]
+        if sorted(tmap) == list(range(len(tw))):
+            tb = tb[tmap]
+            rec.note("time_axis_not_chronological")
+        else:
+            tmap = None
     if tb is None or tb.shape != tw.shape or np.max(np.abs((tb - tw).astype("int64"))) > 1000:
         mech = "roundtrip-times-differ:" + base
         if base == "octopus" and opts.get("ntime") and opts["ntime"] < ds.sizes["time"]:
@@ -327,6 +350,8 @@ def compare(rec, base, key, ds, back, kinds, opts):
                     return
         Ew = ds["efth"].isel(sel).transpose("time", "freq", "dir").values.astype("float64")
         Er = Eb.isel(q[1]).transpose("time", "freq", "dir").values.astype("float64")[:, :, didx]
+        if tmap is not None:
+            Er = Er[tmap]
         for it in range(Ew.shape[0]):
             kind = kinds[(it,) + (lab if isinstance(lab, tuple) else (lab,))]
             ew, er = Ew[it], Er[it]
